@@ -15,7 +15,10 @@ new, missing = [], []
 # run with an empty table for this property first so that the violations file lists everything
 for x in json.load(open(vf)) if os.path.exists(vf) else []:
     r = mod.reason(x["key"])
-    if r: new.append({"property": prop, "key": x["key"], "reason": r})
+    if r:
+        e = {"property": prop, "key": x["key"], "reason": r}
+        if x.get("nkey"): e["nkey"] = x["nkey"]
+        new.append(e)
     else: missing.append(x)
 json.dump(cur + new, open(path, "w"), indent=1)
 print("reviewed entries for %s: %d; without a reason (left as violations): %d" % (prop, len(new), len(missing)))
